@@ -188,7 +188,7 @@ func (b *bench) violate(key, point, format string, a ...any) {
 	v := b.o.Violate(key+":"+b.sc.Op, "%s | scenario %s, crash point: %s", fmt.Sprintf(format, a...), b.sc, point)
 	var calls []string
 	for _, s := range b.rec.Window {
-		calls = append(calls, s.Text)
+		calls = append(calls, strings.ReplaceAll(s.Text, b.runDir, "<mbox>"))
 	}
 	v.Detail = map[string]any{"scenario": b.sc, "crash_point": point, "operation_syscalls": calls}
 }
@@ -504,6 +504,16 @@ func (b *bench) recovery(point string) {
 				if !ok || !oneOf(complete[mid], mboxkit.Canon(got)) {
 					b.violate("reject-without-complete-copy", point, "a proposal for %s is answered 'already received' (-) but %s is not a complete copy of it (present=%v, %d bytes)", mid, rel, ok, len(got))
 				}
+			}
+		}
+		// information only (no clause of the property speaks about it): do the *Count methods agree
+		// with the listings after the crash?
+		for _, f := range []struct {
+			name  string
+			count int
+		}{{"in", h.InboxCount()}, {"out", h.OutboxCount()}, {"sent", h.SentCount()}, {"archive", h.ArchiveCount()}} {
+			if l, ok := listed[f.name]; ok && f.count != len(l) {
+				o.Count("count_differs_from_listing_after_crash", 1)
 			}
 		}
 		// information: leftovers of the interrupted operation
